@@ -40,6 +40,9 @@ def main():
             f = os.path.join(d, "patch.diff")
             if not os.path.exists(f):
                 continue
+            # a change cut against an older HEAD that a later fix: commit touched was re-created by hand on HEAD
+            if os.path.exists(os.path.join(d, "patch-rebased.diff")):
+                f = os.path.join(d, "patch-rebased.diff")
             pid = os.path.basename(d).split("-")[0]
             props = [pid]
             try:
